@@ -160,6 +160,16 @@ func (g *HistGen) Update(docs []bson.D) (bson.D, []bson.D) {
 		}
 	}
 	k := fw.Pick(r, []string{"a", "b", "c", "p", "c.x", "n"})
+	if r.Chance(1, 16) {
+		// the trim / re-sort idiom: nothing is pushed but the array changes
+		mod := bson.D{{Key: "$each", Value: bson.A{}}}
+		if r.Bool() {
+			mod = append(mod, bson.E{Key: "$slice", Value: fw.Pick(r, []interface{}{int32(-1), int32(1), int32(0)})})
+		} else {
+			mod = append(mod, bson.E{Key: "$sort", Value: fw.Pick(r, []interface{}{int32(-1), int32(1)})})
+		}
+		return bson.D{{Key: "$push", Value: bson.D{{Key: fw.Pick(r, []string{"a", "b", "c"}), Value: mod}}}}, nil
+	}
 	if r.Chance(1, 10) {
 		// write into an element of an array of sub-documents through a dotted path
 		p := fw.Pick(r, []string{"a", "b", "c"}) + "." + fw.Pick(r, []string{"0", "1"}) + "." + fw.Pick(r, []string{"q", "x"})
@@ -418,10 +428,10 @@ func (g *HistGen) Next() Op {
 		}
 		op.Update, op.ArrayFilters = g.Update(docs)
 	case UpdateByID:
-		if tgt != nil && len(tgt) > 0 && tgt[0].Key == "_id" && r.Chance(3, 4) {
+		if tgt != nil && len(tgt) > 0 && tgt[0].Key == "_id" && tgt[0].Value != nil && r.Chance(3, 4) {
 			op.ID = gen.CloneValue(tgt[0].Value)
 		} else {
-			op.ID = g.id()
+			op.ID = g.id() // (a nil id is rejected by the driver API itself)
 		}
 		op.Upsert = r.Chance(1, 4)
 		op.Update, op.ArrayFilters = g.Update(docs)
